@@ -60,18 +60,18 @@ CLAIMS = {
         note="Trusted: concurrent.futures semantics table (Executor.map preserves submission order; `with` joins). Partial claim.",
         ref="2/C10"),
     "C11": dict(
-        technique="guarded-stepping rule (control dependence of stepping on step/target); return-expression form; polynomial form of the imaginary-time label",
-        text="Decides that repeating GibbsTempo.compute is idempotent (K1), that the returned state is X/X.trace() on every path (K2) the imaginary-time slice/label forms (K3), Matsubara coefficients on the imaginary-time grid (K4), even transposition parity of every propagator factor of the path (K5: orientation of the thermal state), Matsubara flag in every memo key (K6). Equality with the reduced thermal state is not decided.",
+        technique="guarded-stepping rule (control dependence of stepping on step/target); return-expression form; polynomial form of the imaginary-time label; term-wise magnitude bound of the eta kernel beyond its overflow guard on the imaginary-time axis",
+        text="Decides that repeating GibbsTempo.compute is idempotent (K1), that the returned state is X/X.trace() on every path (K2) the imaginary-time slice/label forms (K3), Matsubara coefficients on the imaginary-time grid (K4), even transposition parity of every propagator factor of the path (K5: orientation of the thermal state), Matsubara flag in every memo key (K6). Equality with the reduced thermal state is not decided. K8: the thermal eta kernel beyond its overflow guard keeps every term not bounded by exp(-w/T) for Matsubara arguments.",
         note="Trusted: def-use/CFG engine. Partial claim.",
         ref="2/C11"),
     "C12": dict(
-        technique="sibling cross-check: linear forms over the uninterpreted eta() against the dblquad regions; shape-name table; .real on Matsubara paths; registry agreement",
-        text="Decides that the closed-form cell integrals are the inclusion-exclusion of the double antiderivative over exactly the regions the quadrature sibling integrates (L1), shape-name agreement (L2), Matsubara realness by construction (L3) cutoff-registry / integrand-builder agreement (L4), eta'' = C between the two integrand builders (L5), memo-key completeness in bath_correlations (L6). The kernel eta itself is not decided.",
+        technique="sibling cross-check: linear forms over the uninterpreted eta() against the dblquad regions; shape-name table; .real on Matsubara paths; registry agreement; exponential-polynomial forms of the integrands: branch beyond the overflow guard vs guarded branch, term by term, with the guard's test checked to imply the bound",
+        text="Decides that the closed-form cell integrals are the inclusion-exclusion of the double antiderivative over exactly the regions the quadrature sibling integrates (L1), shape-name agreement (L2), Matsubara realness by construction (L3) cutoff-registry / integrand-builder agreement (L4), eta'' = C between the two integrand builders (L5), memo-key completeness in bath_correlations (L6). The kernel eta itself is not decided. L8: the integrands beyond the overflow guard equal the guarded ones up to terms bounded by exp(-w/T) for real and Matsubara arguments, and the guard implies that bound on the approximate branch.",
         note="Trusted: forms engine over an uninterpreted function; scipy.dblquad argument convention table. Partial claim.",
         ref="2/C12"),
     "C13": dict(
-        technique="role-typed quotient detection + rounding-idiom classification; path-conditioned slicing on record_all; polynomial forms of time labels; def-use pairing of insert indices",
-        text="Decides how floats become step counts and the form START + k*DT of every time label (G1-G4) for all front ends and steppers.",
+        technique="role-typed quotient detection + rounding-idiom classification; path-conditioned slicing on record_all; polynomial forms of time labels; def-use pairing of insert indices; commit-last rule for step counters; all-or-none path rule for the parallel lists of the result containers",
+        text="Decides how floats become step counts and the form START + k*DT of every time label (G1-G4) for all front ends and steppers. G5: no step counter is advanced before a user callable of that step has returned. G6: time and value lists of Dynamics.add / MeanFieldDynamics.add are inserted together on every path and recorded times are not merged through a relative tolerance.",
         note="Trusted: role vocabulary (printed in evidence); forms engine. The floating-point value of the quotient itself is covered by requiring a tolerant conversion.",
         ref="2/C13"),
     "C14": dict(
@@ -80,8 +80,8 @@ CLAIMS = {
         note="Trusted: effect tables (which attributes hold user callables - frozen with the chain that proves it). Numerical identity across the dkmax boundary not decided.",
         ref="2/C14"),
     "C15": dict(
-        technique="polynomial forms: coefficient of START in every manufactured/consumed absolute time; START plumbing by role binding; call-graph reachability of user time-dependent callables",
-        text="Decides that every absolute time handed to a user callable or used as a label is START + (START-free), every float time is rounded as (t-START)/DT (U1), each front end forwards its own start time (U2), and no user time-dependent callable is reached from a site outside the table (U3).",
+        technique="polynomial forms: coefficient of START in every manufactured/consumed absolute time; START plumbing by role binding; call-graph reachability of user time-dependent callables; affine typing of recorded times in the result containers (points vs differences)",
+        text="Decides that every absolute time handed to a user callable or used as a label is START + (START-free), every float time is rounded as (t-START)/DT (U1), each front end forwards its own start time (U2), and no user time-dependent callable is reached from a site outside the table (U3). U4: the result containers never use a recorded time as a magnitude and never compare it through a relative tolerance.",
         note="Trusted: forms engine; role vocabulary. Floating-point non-associativity not decided.",
         ref="2/C15"),
     "C16": dict(
